@@ -5,7 +5,8 @@
    are root stores, cascade deletes follow a strictly increasing store rank, i.e. no cascade cycle). *)
 From Coq Require Import List NArith Bool Permutation.
 From Storage Require Import Base.Bytes Store.Model Store.Events Store.EventProofs Store.EventAnyProofs
-  Store.TxHooks Store.TxHooksProofs Store.EventsMulti Store.EventMultiProofs Store.TxShared Store.TxSharedProofs Store.EventsReg Store.EventRegProofs.
+  Store.TxHooks Store.TxHooksProofs Store.EventsMulti Store.EventMultiProofs Store.TxShared Store.TxSharedProofs Store.EventsReg Store.EventRegProofs
+  Store.EventsCaller Store.EventCallerProofs.
 Import ListNotations.
 
 (* A committed transaction delivers, as a multiset, exactly the expected events: for each successful
@@ -312,3 +313,28 @@ Theorem shared_update_extends_db_update : forall sch fuel st sys vetoes ctx0 bod
   shared_update sch fuel st sys vetoes ByDb ctx0 (map TOwn body) = db_update sch fuel st sys vetoes ctx0 body.
 Proof. exact shared_update_own_lemma. Qed.
 Print Assumptions shared_update_extends_db_update.
+
+(* "with the entity's final state (create, update) or last state (delete)" is decided WHEN THE OPERATION RUNS.
+   [delivered_state] above takes an event's payload as a value computed from the database states ([attach]); in Go a
+   queued EntityChangeState holds POINTERS (FinalState / InitialState), the caller keeps the struct it passed to
+   Create / Update - a scratch struct re-filled for the next create of a loop, fields assigned after the call - and
+   the listeners run at commit time.  Store/EventsCaller.v models the structs on a heap, a bucket and the event
+   code of store_crud.go (every payload is loaded with FindById into a struct only the library knows,
+   [LibPinned]).  For EVERY program of the caller - the same struct passed to any number of creates / updates,
+   any struct it holds (also one FindById handed to it) overwritten at any time, id included - what the listeners
+   are handed at the end for the k-th queued event is the value recorded when it was queued; records are never
+   taken back; and the record of an operation is the bucket's content for the event's entity right after that
+   create / update, right before that delete.  So the payload of [attach] is "the committed state of that
+   operation's entity".  (Create without loadFinalState keeps the caller's pointer: Examples/C08Caller.v
+   scratch_loop_alias_refuted - three creates through one scratch struct announce the never-stored last id thrice.) *)
+Theorem delivered_state_fixed_at_operation : forall pre c post st1 st2 stf,
+  run_ecaller LibPinned estate_empty pre = st1 ->
+  estep LibPinned st1 c = st2 ->
+  run_ecaller LibPinned st2 post = stf ->
+  delivered stf = map Some (es_snap stf) /\
+  firstn (length (es_snap st2)) (es_snap stf) = es_snap st2 /\
+  (forall q sn, es_queue st2 = es_queue st1 ++ [q] -> es_snap st2 = es_snap st1 ++ [sn] ->
+     fst sn = q_id q /\
+     db_get (match q_change q with Deleted => es_db st1 | _ => es_db st2 end) (q_id q) = Some (snd sn)).
+Proof. exact delivered_state_fixed_lemma. Qed.
+Print Assumptions delivered_state_fixed_at_operation.
